@@ -128,6 +128,14 @@ def cases(tier, seed):
                         for seq in seqs:
                             i += 1
                             yield {"id": i, "kind": kind, "tree": t, "seq": seq, "mode": "plain", "imm": list(imm)}
+    # the same through the public API RuntimeV2_x.process_events (outgoing events are fed back): all trees with <=3 leaves
+    for kind in KINDS:
+        for nl in (2, 3):
+            leaves = ["E%d" % j for j in range(nl)]
+            for t in trees(leaves):
+                for seq in _seqs(leaves, True):
+                    i += 1
+                    yield {"id": i, "kind": kind, "tree": t, "seq": seq, "mode": "noisy", "api": True}
     # sampled larger formulas
     rng = random.Random(1000 + seed)
     nsamp = 1500 if tier == "quick" else 40000
@@ -171,11 +179,11 @@ def run_case(case):
             full += [e, "X", e]
     else:
         full = list(seq)
-    obs = {"events_fed": 0, "formulas_with_and_or": 0, "cases_with_idle_time_between_events": int(mode == "aged")}
+    obs = {"events_fed": 0, "formulas_with_and_or": 0, "cases_with_idle_time_between_events": int(mode == "aged"), "cases_through_process_events": int(bool(case.get("api")))}
     groups = len(dnf(t))
     sample = {"kind": kind, "formula": render(t, lambda x: x), "events": full}
     base = {
-        "key": repr((kind, t, seq, mode, imm)),
+        "key": repr((kind, t, seq, mode, imm, bool(case.get("api")))),
         "imm": list(imm),
         "imm_in_and_group": any(len(g) >= 2 and set(g) & set(imm) for g in dnf(t)),
         "nontrivial": (ops(t) == {"and", "or"} or len(leaves_of(t)) >= 3),
@@ -183,12 +191,19 @@ def run_case(case):
         "kind": kind,
         "groups": groups,
     }
+    api = None
     try:
-        st = v2h.mk(src)
+        if case.get("api"):
+            api = v2h.ApiSession(src)
+            st = api.st
+            first_out = api.out
+        else:
+            st = v2h.mk(src)
+            first_out = st.outgoing_events
     except v2h.LoaderReject as e:
         return dict(base, verdict="inconclusive", reason="loader-reject", detail=str(e), nontrivial=False)
     fired = None
-    if "Done" in v2h.types(st.outgoing_events):
+    if "Done" in v2h.types(first_out):
         fired = -1
     S = set(imm)
     exp = -1 if (imm and evaluate(t, S)) else None
@@ -197,7 +212,7 @@ def run_case(case):
         if mode == "aged":
             L["clock"].advance(6.5)
         try:
-            out = v2h.run(st, {"type": e})
+            out = api.run({"type": e}) if api is not None else v2h.run(st, {"type": e})
         except Exception as ex:  # escaping exception = the statement failed to behave like the formula
             err = "%s: %s" % (type(ex).__name__, str(ex)[:120])
             break
